@@ -57,6 +57,11 @@ CLAIMED.update({
    text='Every access to mutex-owned state in every public method of SharedVariable, SharedOptionalVariable, OnlineAverage, OnlineVariance, RateMonitoring, Checkup*, CheckupReliability, CheckupRate happens with the owning mutex held; helpers are only called with it held; one critical section per call; no reference to owned state escapes; consume() returns and empties the slot atomically.',
    note=TB_A + '; the step from per-method lock discipline to "no data race and sequentially consistent values in every schedule" is the standard lockset/atomicity theorem, stated as trusted; construction/configuration assumed single-threaded', ref='DESIGN.md 4 (C19)'),
 })
+CLAIMED.update({
+ 'C03': dict(cat='proof', technique='SMT verification conditions over the reals generated from the extracted C++ (formal derivative of the code\'s own forward map for conformality; libm as axiomatised uninterpreted functions)',
+   text='Forward map conformal (equal scale along meridian and parallel, orthogonal images), scale 1 on both standard parallels / k0 on the tangent parallel, origin -> (x0, y0), central meridian -> x = x0; inverse on images of the forward map: log argument positive in both hemispheres, longitude and isometric latitude recovered exactly, original latitude is a fixed point of the latitude loop at which its exit test holds.',
+   note=TB_B + '; rounding (the 1e-11 rad tolerance), convergence and termination of the fixed-point loop are NOT decided by the proof (native replay only)', ref='DESIGN.md 4 (C03)'),
+})
 NA = {}
 def main():
     props = [json.loads(l) for l in open(os.path.join(V, 'properties.jsonl'))]
